@@ -19,6 +19,9 @@ LINE_GROUPS_R = {"KA_LINE", "KB_LINE", "LA_LINE", "LB_LINE"}
 ZS = list(range(-3, 126)) + [INT_MIN, INT_MAX, 1000, -1000]
 
 
+CROSS = [False]      # set in the cross-accessor passes: group macros that C01 does not judge are still called
+
+
 def accessors(h):
     """[(function, data file, scale, family, excluded macro names)]; family None = Z only"""
     return [
@@ -86,6 +89,13 @@ def expected_value(recs, z, dname):
 
 def work(item):
     config, lib_path, src, acc_idx = item
+    if isinstance(acc_idx, tuple):          # ("cross", [accessor indices]): every accessor in this one process, one after the other
+        st = Stats()
+        CROSS[0] = True
+        for i in acc_idx[1]:
+            st.merge(work((config, lib_path, src, i)))
+        st.cls("cross_accessor_passes")
+        return st
     st = Stats()
     h = xrl.Headers(src)
     df = xrl.DataFiles(src)
@@ -126,6 +136,9 @@ def work(item):
         ns = byval.get(m, [])
         name = ns[0] if ns else None
         if name in excl:
+            if CROSS[0]:
+                for z in ZS:        # decided elsewhere (C10), but asked here too: what it leaves behind must not disturb the other accessors
+                    v, e = L.call(fn, z, m)
             continue
         dn = data_name(fam, name) if name else None
         for z in ZS:
@@ -192,12 +205,16 @@ def prepare(ctx):
 def run(ctx):
     ctx.rule = ("exhaustive: 10 scalar accessors x Z in [-3,125]+extremes x every macro value in [lo-3,hi+3]+extremes of its family "
                 "(values lexed from the headers), configurations A (as shipped) and B (Kissel regenerated); oracle = own parse of "
-                "data/*.dat, unit-converted, rounded to 11 digits, compared with ==. non-trivial = cell with a positive record "
+                "data/*.dat, unit-converted, rounded to 11 digits, compared with ==; plus two passes with all accessors in one process (declaration order, reverse order). non-trivial = cell with a positive record "
                 "(distinct by construction); error cells counted separately")
     ctx.exhaustive = True
     builds = prepare(ctx)
     h = xrl.Headers(builds["A"]["src"])
     items = [(c, builds[c]["lib"], builds[c]["src"], i) for c in ("A", "B") for i in range(len(accessors(h)))]
+    # the same enumeration once more with all accessors in ONE process, in declaration order and in reverse order: a lookup that rewrites a table
+    # another accessor reads (say, a line-energy query normalising the rate table in place) only shows across accessors
+    n_acc = len(accessors(h))
+    items += [("A", builds["A"]["lib"], builds["A"]["src"], ("cross", list(range(n_acc)))), ("A", builds["A"]["lib"], builds["A"]["src"], ("cross", list(range(n_acc))[::-1]))]
     ctx.stats.merge(common.pmap(work, items))
     ctx.assumptions = ["glibc strtod/printf round-trip identical in generator and oracle",
                        "group/doublet line macros are decided by C10, Auger tables by C11",
